@@ -36,7 +36,9 @@ ASSUMPTIONS = [
     "steps rejected by schema validation (SchemaValidationError / ExtensionError / SDLError) produce no schema; their side effects on the heap are still compared; any other exception, a plain SchemaError included, is a failure of the derivation",
     "about half of the object types of a source get their resolvers through the schema's registries; 12% of the sources hold one or two type objects that are instances of an application-defined subclass of ObjectType / InterfaceType / InputObjectType",
     "default values are opaque to the heap model (`dflt` = repr of the coerced value): the steps sent to the model add no input field WITH a default and remove no enum value / input field a default mentions through an extension, so `ArgKept.dflt` (the default is kept) is what the code does; defaults that must CHANGE (an extension adding a defaulted input field, T15) or that mention removed members (T13, T14) are checked by the direct oracle only (`default_cases`, `directive_cases`)",
-    "the ORDER of the `types` / `directives` dicts is compared with the model (corr:registry-order) for clone / transform / in-place / replace results without an extension in their ancestry; the order `extend_schema` gives its result is not modelled (the heap comparison itself is order-insensitive)",
+    "the ORDER of the `types` / `directives` dicts is compared with the model (corr:registry-order) for every clone / transform / in-place / replace / extend result, extension results and their descendants included (extendOrder: the depth-first registration order of Schema.__init__ over the rebuilt types; the heap comparison itself is order-insensitive)",
+    "about half of the extension documents that define an object type let it implement an interface of the schema (with the interface's fields): decided by a fixed function of the step number and the schema, without drawing from the generator's rng; `extend type X implements I` on an EXISTING type is not generated (not modelled)",
+    "named probes run after everything that draws from ctx.rng and draw nothing themselves: python names through camel-case, input fields of a clone, in-place visitor on an earlier result while a sibling clone / a clone of it / an extension of it exist",
     "resolver identity is by function object (every resolver of the harness is a distinct function with a stable id); the registry model compares these ids",
 ]
 TRUSTED = [
